@@ -1,2 +1,72 @@
-(** C05 — placeholder until the assembler theorems land; replaced below. *)
-From Sameold Require Import Base.Bytes.
+(** C05 — Each transmission is reported once, in order; repeats suppressed only in-window. *)
+From Sameold Require Import Base.Bytes Model.Header Model.Combiner Model.Assembler
+  Proofs.CombinerP Proofs.AssemblerP.
+
+(** For EVERY history of burst arrivals and idle polls with a monotone symbol clock, from the
+    initial state: two consecutive reports with the same text are at least
+    MAX_HISTORY_DURATION (10.86 s) apart — [spaced] walks the list of Ok reports and compares
+    each with the one before it. *)
+Theorem C05_no_double_report_in_window : forall ops,
+  mono 0 ops -> spaced None (ok_reports (fst (asm_run asm_init ops))).
+Proof. exact no_double_report. Qed.
+Print Assumptions C05_no_double_report_in_window.
+
+(** the same from any state satisfying the invariant (so it composes over receiver resets
+    and over any prefix history) *)
+Theorem C05_no_double_report_from_any_reachable_state : forall ops s clock last,
+  DInv s clock last -> mono clock ops -> spaced last (ok_reports (fst (asm_run s ops))).
+Proof. exact run_spaced. Qed.
+Print Assumptions C05_no_double_report_from_any_reachable_state.
+
+(** the same header transmitted again after the window is reported again *)
+Theorem C05_rereported_after_window : forall p H X h0 hprev treport t1 t2 t3 polls1 polls2 polls3,
+  header_new H = Ok h0 -> h_text h0 = H -> forallb is_allowed_byte H = true ->
+  (length H <= MAX_MESSAGE_LENGTH)%nat -> all_bytes X = true -> X <> [] ->
+  h_text hprev = H -> treport + MAX_HISTORY_DURATION <= t1 ->
+  t1 <= t2 -> t2 <= t3 -> t3 < t1 + MAX_HISTORY_DURATION ->
+  Forall (fun n => n < t1 + MAX_HISTORY_DURATION) polls1 ->
+  Forall (fun n => n < t2 + MAX_INTERBURST_SYMBOLS /\ n < t1 + MAX_HISTORY_DURATION) polls2 ->
+  som_reports (fst (asm_run (mkAsm [] None (Some (mkTimed (SOM hprev) (treport + MAX_HISTORY_DURATION))))
+        (OBurst (nth_burst p H X 0) t1 :: map OIdle polls1
+         ++ OBurst (nth_burst p H X 1) t2 :: map OIdle polls2
+         ++ OBurst (nth_burst p H X 2) t3 :: map OIdle polls3)))
+  = match find (fun n => t3 + MAX_INTERBURST_SYMBOLS <=? n) polls3 with
+    | Some tf => [(tf, mkHeader H (h_offset_time h0) (parity_spec H (trunc X)) (voting_spec H (trunc X)))]
+    | None => []
+    end.
+Proof. exact header_rereported_after_window. Qed.
+Print Assumptions C05_rereported_after_window.
+
+(** one transmission, one StartOfMessage / one EndOfMessage: the scenario theorems of C02 give
+    EXACTLY one report each (restated here for the trailer, whose three bursts each establish
+    the EndOfMessage on their own) *)
+Theorem C05_trailer_reported_once : forall prev0 n1 n2 n3 t1 t2 t3 polls1 polls2 polls3,
+  starts_NN n1 -> starts_NN n2 -> starts_NN n3 ->
+  (forall now, is_not_duplicate (prune_previous prev0 now) EOM = true) ->
+  t1 <= t2 -> t2 <= t3 -> t3 < t1 + MAX_HISTORY_DURATION ->
+  Forall (fun n => n < t1 + MAX_HISTORY_DURATION) polls1 ->
+  Forall (fun n => n < t1 + MAX_HISTORY_DURATION) polls2 ->
+  msgs (fst (asm_run (mkAsm [] None prev0)
+        (OBurst n1 t1 :: map OIdle polls1 ++ OBurst n2 t2 :: map OIdle polls2
+           ++ OBurst n3 t3 :: map OIdle polls3)))
+  = [(t1, Ok EOM)].
+Proof. exact trailer_one_eom. Qed.
+Print Assumptions C05_trailer_reported_once.
+
+(** KNOWN FINDINGS (false of the faithful model; replayed on the implementation by the check):
+    F1: a different header one second after the first: the first is never reported *)
+Theorem C05_F1_refuted :
+  report_kinds (fst (asm_run asm_init
+    (tx_ops 1000 [(SEC,str_A);(SEC,str_A);(SEC,str_A);(SEC,str_B);(SEC,str_B);(SEC,str_B)] 800)))
+  = [(7592, 2)].
+Proof. exact F1_following_header_displaces_pending. Qed.
+Print Assumptions C05_F1_refuted.
+
+(** F8: one trailer, two EndOfMessage reports (the second 6098 symbols after the first, i.e.
+    outside the window, so it does not contradict the invariant above) *)
+Theorem C05_F8_refuted :
+  report_kinds (fst (asm_run asm_init
+    (tx_ops 1000 [(SEC,str_N);(SEC,str_N);(SEC,str_N);(4272,str_B)] 800)))
+  = [(1681, 3); (7779, 3)].
+Proof. exact F8_second_eom_from_stale_history. Qed.
+Print Assumptions C05_F8_refuted.
